@@ -74,6 +74,8 @@ def read_cirq(obj, nq, mode):
             out.append(g("Y", w))
         elif tn == "_PauliZ":
             out.append(g("Z", w))
+        elif tn == "IdentityGate":
+            out.append(g("I", w))
         elif tn in ("CXPowGate", "CCXPowGate", "XPowGate") and gt.exponent == 1:
             out.append(g("MCX" if len(w) > 1 else "X", w))
         elif tn == "HPowGate" and gt.exponent == 1:
